@@ -118,6 +118,9 @@ type apiOutcome struct {
 	panic interface{}
 }
 
+// apiThorough: the thorough tier widens the corpora (VERIF_TIER=thorough)
+var apiThorough = os.Getenv("VERIF_TIER") == "thorough"
+
 // apiCases counts the library calls (Parse, Retrieve, evaluations of a parsed function) a run made
 var apiCases int64
 
@@ -1241,12 +1244,15 @@ func apiCheckSelect(t *testing.T) {
 				}
 			}
 		}
-		if depth == 3 {
+		if depth == 3 && !apiThorough || depth == 4 {
 			return
 		}
-		for _, s := range pool {
+		for si, s := range pool {
 			if depth == 2 && s.rec {
 				continue // keep the third level to plain steps
+			}
+			if depth == 3 && (si%3 != 1 || s.rec) {
+				continue // thorough: a fourth level over a third of the plain steps
 			}
 			rec(append(append([]refStep{}, prefix...), s), depth+1)
 		}
@@ -1262,7 +1268,7 @@ func apiCheckCompose(t *testing.T) {
 		for _, p1 := range pool {
 			for _, p2 := range pool {
 				for qi, q := range pool {
-					if qi%3 != 0 && !q.rec {
+					if qi%3 != 0 && !q.rec && !apiThorough {
 						continue // the last step ranges over a third of the plain steps and every recursive one
 					}
 					if t.Failed() {
@@ -1500,7 +1506,7 @@ func TestVerifReplay(t *testing.T) {
 		apiCheckParseTotal(t)
 	case "C19":
 		apiCheckParseIndependent(t)
-	case "C01":
+	case "C01", "C07":
 		apiCheckSelect(t)
 	case "C08":
 		apiCheckCompose(t)
